@@ -11,9 +11,40 @@ Call events are recorded before invoking, return events after.  Every monitor co
 import numpy as np
 
 
+class Records(object):
+    """Append-only log of solve records with ABSOLUTE indexing that keeps only the most recent ones alive (a record holds
+    the problem object, Gram matrices and everything sent: thousands of them per shard exhaust the memory).  len() is the
+    number of records ever appended; records[n0], records[n0:], records[-1] work for indices that are still held."""
+    KEEP = 48
+
+    def __init__(self):
+        self._n = 0
+        self._held = {}
+
+    def append(self, rec):
+        self._held[self._n] = rec
+        self._n += 1
+        for k in [k for k in self._held if k < self._n - self.KEEP]:
+            del self._held[k]
+
+    def __len__(self):
+        return self._n
+
+    def __getitem__(self, i):
+        if isinstance(i, slice):
+            start, stop, step = i.indices(self._n)
+            return [self._held[k] for k in range(start, stop, step) if k in self._held]
+        if i < 0:
+            i += self._n
+        return self._held[i]
+
+    def __iter__(self):
+        return iter([self._held[k] for k in sorted(self._held)])
+
+
 class Boundary(object):
     def __init__(self):
-        self.records = []
+        self.records = Records()
         self.cur = None
         self.installed = False
         self.counts = {"solve_calls": 0, "sent_constraints": 0, "sent_lmis": 0, "inner_solves": 0,
